@@ -3,6 +3,10 @@ import PnVerif.Model.HeaderText
 /-
   C20 correspondence driver.  One request per line on stdin, one answer per line on stdout.
 
+    CFG <strictLen> <strictSign> <strictTag> <dimid64> <cmpNumrecs> <byteCmp>   (0/1 each) -> CFG ok
+                                selects the code variants the tree follows (found by the check from the
+                                witness replays): repairs of C20-F3, F4, F5, F6 (ncvalidator), F1 (cdfdiff),
+                                F2 (ncmpidiff).  Default: all 0 = the pinned source.
     V <hexfile>            -> V <verdict> <spec>
                                 verdict = Tools.validateCode (ok | enullpad | <fatal error>)
                                 spec    = 0 Spec.specDecode (the independent BNF decoder) rejects | 1 decodes, invalid
@@ -23,8 +27,13 @@ def showOut (o : DiffOut) : String :=
   | .crash => "crash"
   | .counts h v => s!"{h},{v}"
 
-def cdfView (f : Bytes) : Option LFile :=
-  match vGetNC f with
+structure Cfg where
+  v   : VCfg
+  cdf : DiffCfg
+  mpi : DiffCfg
+
+def cdfView (c : VCfg) (f : Bytes) : Option LFile :=
+  match vGetNC c f with
   | .ok (h, info, _) => some (absFile h info.recsize f)
   | .error _ => none
 
@@ -44,20 +53,20 @@ def specLevel (f : Bytes) : Nat :=
       | none => false
     if d.refsOk && chainOk then 2 else 1
 
-def step (line : String) : String :=
+def step (cfg : Cfg) (line : String) : String :=
   match tokens line.trimAscii.toString with
   | ["V", hx] =>
     match ofHex hx with
-    | some f => s!"V {validateCode f} {specLevel f}"
+    | some f => s!"V {validateCode cfg.v f} {specLevel f}"
     | none => "bad-hex"
   | ["D", ha, hb] =>
     match ofHex ha, ofHex hb with
     | some fa, some fb =>
-      let c := match cdfView fa, cdfView fb with
-        | some a, some b => showOut (toolDiff cdfdiffCfg a b)
+      let c := match cdfView cfg.v fa, cdfView cfg.v fb with
+        | some a, some b => showOut (toolDiff cfg.cdf a b)
         | _, _ => "invalid"
       let (m, l) := match libView fa, libView fb with
-        | some a, some b => (showOut (toolDiff ncmpidiffCfg a b), if logicalEqB a b then "1" else "0")
+        | some a, some b => (showOut (toolDiff cfg.mpi a b), if logicalEqB a b then "1" else "0")
         | _, _ => ("invalid", "-")
       s!"D {c} {m} {l}"
     | _, _ => "bad-hex"
@@ -73,12 +82,20 @@ def step (line : String) : String :=
     | none => "bad-hex"
   | _ => "bad-op"
 
-partial def loop (h : IO.FS.Stream) (out : IO.FS.Stream) : IO Unit := do
+def bit (t : String) : Bool := t == "1"
+
+partial def loop (h : IO.FS.Stream) (out : IO.FS.Stream) (cfg : Cfg) : IO Unit := do
   let line ← h.getLine
   if line.isEmpty then return ()
-  out.putStrLn (step line)
-  loop h out
+  match tokens line.trimAscii.toString with
+  | ["CFG", a, b, c, d, e, g] =>
+    out.putStrLn "CFG ok"
+    loop h out { v := { strictLen := bit a, strictSign := bit b, strictTag := bit c, dimid64 := bit d },
+                 cdf := { cdfdiffCfg with cmpNumrecs := bit e }, mpi := { ncmpidiffCfg with skipByte := !bit g } }
+  | _ =>
+    out.putStrLn (step cfg line)
+    loop h out cfg
 
 def main : IO Unit := do
   let out ← IO.getStdout
-  loop (← IO.getStdin) out
+  loop (← IO.getStdin) out { v := VCfg.asIs, cdf := cdfdiffCfg, mpi := ncmpidiffCfg }
